@@ -5,7 +5,7 @@ WT=$1; PATCH=$2; PROP=$3; shift 3
 git -C "$WT" checkout -q -- . && git -C "$WT" apply "$PATCH" || { echo "patch does not apply"; exit 3; }
 OUT=/var/tmp/mithril-verif-mut/$(basename $(dirname "$PATCH"))
 mkdir -p "$OUT"
-VERIF_REPO="$WT" VERIF_SCRATCH="$OUT/scratch" VERIF_EVIDENCE="$OUT/evidence" /verif/check "$PROP" "$@" > "$OUT/check.log" 2>&1
+VERIF_REPO="$WT" VERIF_SCRATCH="$OUT/scratch" VERIF_EVIDENCE="$OUT/evidence" VERIF_KANI_TARGET=/var/tmp/mithril-verif-mut/kani-target /verif/check "$PROP" "$@" > "$OUT/check.log" 2>&1
 RC=$?
 git -C "$WT" checkout -q -- .
 echo "== $(basename $(dirname "$PATCH")) $PROP exit=$RC"; grep -E "VIOLATION|KNOWN-FINDING|UNDECIDED|OK:" "$OUT/check.log" | cut -c1-300
